@@ -33,8 +33,8 @@ const maxMakeCount = 4096 // cap for entry points that make() the declared eleme
 
 type entryPoint struct {
 	name  string
-	typed bool                                            // depends on the requested type byte
-	allow func(b []byte, t int8) bool                     // allocation cap (nil = unrestricted)
+	typed bool                                                 // depends on the requested type byte
+	allow func(b []byte, t int8) bool                          // allocation cap (nil = unrestricted)
 	f     func(b []byte, t int8) (n int, hasN bool, err error) // result must lie within b
 }
 
@@ -71,7 +71,10 @@ var entryPoints = []entryPoint{
 	{"Binary.ReadI16", false, nil, func(b []byte, t int8) (int, bool, error) { _, n, err := thrift.Binary.ReadI16(b); return n, true, err }},
 	{"Binary.ReadI32", false, nil, func(b []byte, t int8) (int, bool, error) { _, n, err := thrift.Binary.ReadI32(b); return n, true, err }},
 	{"Binary.ReadI64", false, nil, func(b []byte, t int8) (int, bool, error) { _, n, err := thrift.Binary.ReadI64(b); return n, true, err }},
-	{"Binary.ReadDouble", false, nil, func(b []byte, t int8) (int, bool, error) { _, n, err := thrift.Binary.ReadDouble(b); return n, true, err }},
+	{"Binary.ReadDouble", false, nil, func(b []byte, t int8) (int, bool, error) {
+		_, n, err := thrift.Binary.ReadDouble(b)
+		return n, true, err
+	}},
 	{"Binary.ReadString", false, nil, func(b []byte, t int8) (int, bool, error) {
 		s, n, err := thrift.Binary.ReadString(b)
 		if err == nil && len(s) != n-4 {
@@ -86,10 +89,22 @@ var entryPoints = []entryPoint{
 		}
 		return n, true, err
 	}},
-	{"Binary.ReadFieldBegin", false, nil, func(b []byte, t int8) (int, bool, error) { _, _, n, err := thrift.Binary.ReadFieldBegin(b); return n, true, err }},
-	{"Binary.ReadMapBegin", false, nil, func(b []byte, t int8) (int, bool, error) { _, _, _, n, err := thrift.Binary.ReadMapBegin(b); return n, true, err }},
-	{"Binary.ReadListBegin", false, nil, func(b []byte, t int8) (int, bool, error) { _, _, n, err := thrift.Binary.ReadListBegin(b); return n, true, err }},
-	{"Binary.ReadSetBegin", false, nil, func(b []byte, t int8) (int, bool, error) { _, _, n, err := thrift.Binary.ReadSetBegin(b); return n, true, err }},
+	{"Binary.ReadFieldBegin", false, nil, func(b []byte, t int8) (int, bool, error) {
+		_, _, n, err := thrift.Binary.ReadFieldBegin(b)
+		return n, true, err
+	}},
+	{"Binary.ReadMapBegin", false, nil, func(b []byte, t int8) (int, bool, error) {
+		_, _, _, n, err := thrift.Binary.ReadMapBegin(b)
+		return n, true, err
+	}},
+	{"Binary.ReadListBegin", false, nil, func(b []byte, t int8) (int, bool, error) {
+		_, _, n, err := thrift.Binary.ReadListBegin(b)
+		return n, true, err
+	}},
+	{"Binary.ReadSetBegin", false, nil, func(b []byte, t int8) (int, bool, error) {
+		_, _, n, err := thrift.Binary.ReadSetBegin(b)
+		return n, true, err
+	}},
 	{"Binary.ReadMessageBegin", false, nil, func(b []byte, t int8) (int, bool, error) {
 		_, _, _, n, err := thrift.Binary.ReadMessageBegin(b)
 		return n, true, err
@@ -103,6 +118,24 @@ var entryPoints = []entryPoint{
 			return -2, true, nil
 		}
 		return len(o), true, err
+	}},
+	{"BytesSkipDecoder.Next twice on one decoder", true, nil, func(b []byte, t int8) (int, bool, error) {
+		d := thrift.NewBytesSkipDecoder(b)
+		defer d.Release()
+		o1, err1 := d.Next(t)
+		if err1 == nil && !inside(o1, b) {
+			return -2, true, nil
+		}
+		// whatever the first call did, a second one must stay inside the input as well
+		o2, err2 := d.Next(ref.BYTE)
+		if err2 == nil && (!inside(o2, b) || len(o2) > len(b)) {
+			return -2, true, nil
+		}
+		o3, err3 := d.Next(t)
+		if err3 == nil && !inside(o3, b) {
+			return -2, true, nil
+		}
+		return len(o1), err1 == nil, nil
 	}},
 	{"ApplicationException.FastRead", false, nil, func(b []byte, t int8) (int, bool, error) {
 		return first2(thrift.NewApplicationException(0, "").FastRead(b))
